@@ -24,7 +24,7 @@ import time
 HERE = os.path.dirname(os.path.dirname(os.path.abspath(__file__)))
 SEEDED = os.path.join(HERE, 'seeded')
 REPO = os.environ.get('PYPRISM_REPO', '/repo')
-ALL = ['C%02d' % i for i in range(1, 18)]
+ALL = ['C%02d' % i for i in range(1, 19)]
 PY = '/venv/bin/python'
 
 
@@ -145,6 +145,14 @@ def main():
         def job(mid):
             if a.checks == 'own':
                 cs = [load_meta(mid).get('property', mid[:3])]
+            elif a.checks == 'prev':
+                # the check of the targeted property plus every check that caught this change in an earlier run
+                cs = {load_meta(mid).get('property', mid[:3])}
+                rp = os.path.join(SEEDED, mid, 'result.json')
+                if os.path.exists(rp):
+                    for tier_res in json.load(open(rp)).values():
+                        cs.update(c for c, v in tier_res.items() if v.get('rc') == 1)
+                cs = sorted(c for c in cs if c in ALL + ['C18'])
             elif a.checks == 'all':
                 cs = ALL
             else:
